@@ -250,8 +250,28 @@ func applyPair(where string, tree *tr.Node, reqmod martian.RequestModifier, resm
 	return v
 }
 
+// parseBounded is parse.FromJSON under the liveness bound: a parse that does
+// not return is a verdict, never a wedged test process.
+func parseBounded(check string, c Case) (r *parse.Result, err error, v kit.Verdict) {
+	if !bounded(check, func() { r, err = parse.FromJSON(c.text()) }) {
+		registryStuck.Store(true)
+		shape := "valid-tree"
+		if c.mustReject() {
+			shape = c.faultName()
+		}
+		return nil, nil, kit.Failf("C12/parse/"+shape+"/call-does-not-return", "parse.FromJSON did not return within %v: %s", 3*kit.T(), short(c.text()))
+	}
+	return r, err, nil
+}
+
 func runTree(c Case) kit.Verdict {
-	r, err := parse.FromJSON(c.text())
+	if registryStuck.Load() {
+		return nil // see registryStuck
+	}
+	r, err, hung := parseBounded("tree", c)
+	if hung != nil {
+		return hung
+	}
 	if c.mustReject() {
 		if err == nil {
 			return kit.Failf("C12/reject/"+c.faultName()+"/configuration-accepted", "configuration with fault %q was accepted: %s", c.faultName(), c.text())
@@ -296,6 +316,7 @@ type shape struct {
 	filters        map[string]bool
 	hasElse        bool
 	singleSideLeaf bool
+	widePrio       bool // a priority group with 13 or more entries acting on one side and a tie among them
 	hugePrio       bool // two entries of one priority group differ and both lie beyond +-2^53
 	prioOmitted    bool // a priority entry without the "priority" key that follows an entry with a non-zero priority
 }
@@ -340,6 +361,19 @@ func shapeOf(root *tr.Node) shape {
 					if a != b && (a >= 1<<53 || a <= -(1<<53)) && (b >= 1<<53 || b <= -(1<<53)) {
 						s.hugePrio = true
 					}
+				}
+			}
+			for _, side := range []tr.Side{tr.Request, tr.Response} {
+				acting, tie, seenP := 0, false, map[int]bool{}
+				for i, k := range n.Kids {
+					if k.Acts(side) {
+						acting++
+						tie = tie || seenP[n.PrioOf(i)]
+						seenP[n.PrioOf(i)] = true
+					}
+				}
+				if acting >= 13 && tie {
+					s.widePrio = true
 				}
 			}
 			seen := map[int]bool{}
@@ -418,6 +452,12 @@ func classes(c Case) []string {
 	}
 	if s.hugePrio {
 		cl = append(cl, "priorities-beyond-2^53")
+	}
+	if s.widePrio {
+		cl = append(cl, "priority-group>=13-entries-with-tie")
+		if s.depth >= 3 {
+			cl = append(cl, "wide-priority-group-in-deeper-tree")
+		}
 	}
 	if s.hasElse {
 		cl = append(cl, "else-present")
@@ -590,6 +630,13 @@ func (g *gen) node(depth int) *tr.Node {
 	case k < 72:
 		n := &tr.Node{ID: g.id(), T: tr.Priority}
 		w := uni(t, "width", g.maxWidth+1)
+		// 1 priority group in 6 is wide: 13..40 leaf entries over few distinct
+		// priorities (long runs of equals whose order is the tie rule), at
+		// whatever depth the group sits
+		wide := uni(t, "wideprio", 6) == 0
+		if wide {
+			w = 13 + uni(t, "widewidth", 28)
+		}
 		// 1 group in 4 uses priorities of 64-bit size (ids, nanosecond
 		// timestamps): all its entries sit within 0..2 of one base, so that
 		// neighbours differ by less than anything but exact integer
@@ -597,7 +644,11 @@ func (g *gen) node(depth int) *tr.Node {
 		huge := uni(t, "hugeprio", 4) == 0
 		base := hugeBases[uni(t, "hugebase", len(hugeBases))]
 		for i := 0; i < w; i++ {
-			n.Kids = append(n.Kids, g.node(depth+1))
+			if wide {
+				n.Kids = append(n.Kids, g.leaf())
+			} else {
+				n.Kids = append(n.Kids, g.node(depth+1))
+			}
 			if huge && uni(t, "hugeentry", 5) > 0 {
 				n.Prio = append(n.Prio, base+uni(t, "hugeoff", 3))
 			} else {
@@ -697,13 +748,13 @@ func genCase(t *rapid.T) Case {
 	return c
 }
 
-var treeRule = "configuration trees over fifo.Group / priority.Group / url,header,querystring,method,cookie filters (with and without else) / registered leaves (trace probes, header set/append/delete on headers the conditions read, error leaves, request-only and response-only leaves), scope drawn at every node from {absent,[request],[response],both,[]}, 1 priority entry in 4 without a priority key, 1 priority group in 4 with 64-bit-sized priorities (2^53, timestamps, MaxInt64, MinInt64 +0..2), a kind named twice in a scope, depth <= 4|6, width <= 4|6; 1 in 5 carries one fault (unknown name, unsupported scope, invalid scope string, two keys, a filter or priority entry without modifier, truncated text, non-whitespace bytes after the complete tree) and must be rejected; valid ones are applied to 4 request/response pairs and compared with the reference interpreter (final message, returned errors as a multiset); non-trivial = depth >= 3, or differing scopes on a root-to-leaf path, or an error leaf under an aggregating group, or a priority tie"
+var treeRule = "configuration trees over fifo.Group / priority.Group / url,header,querystring,method,cookie filters (with and without else) / registered leaves (trace probes, header set/append/delete on headers the conditions read, error leaves, request-only and response-only leaves), scope drawn at every node from {absent,[request],[response],both,[]}, 1 priority entry in 4 without a priority key, 1 priority group in 6 with 13..40 leaf entries over few distinct priorities, 1 priority group in 4 with 64-bit-sized priorities (2^53, timestamps, MaxInt64, MinInt64 +0..2), a kind named twice in a scope, depth <= 4|6, width <= 4|6; 1 in 5 carries one fault (unknown name, unsupported scope, invalid scope string, two keys, a filter or priority entry without modifier, truncated text, non-whitespace bytes after the complete tree) and must be rejected; valid ones are applied to 4 request/response pairs and compared with the reference interpreter (final message, returned errors as a multiset); non-trivial = depth >= 3, or differing scopes on a root-to-leaf path, or an error leaf under an aggregating group, or a priority tie"
 
 var propTree = &kit.Prop[Case]{
 	ID: "C12", Name: "tree", Rule: "rapid-drawn " + treeRule,
 	Gen: genCase, Run: runTree, NonTrivial: nontrivial, Classes: classes,
 	Gates: map[string]float64{
-		"depth>=3": 0.30, "mixed-scopes-on-path": 0.10, "err-under-aggregate": 0.04, "priority-tie": 0.08, "priority-key-omitted-after-nonzero": 0.04, "priorities-beyond-2^53": 0.03,
+		"depth>=3": 0.30, "mixed-scopes-on-path": 0.10, "err-under-aggregate": 0.04, "priority-tie": 0.08, "priority-key-omitted-after-nonzero": 0.04, "priorities-beyond-2^53": 0.03, "priority-group>=13-entries-with-tie": 0.03,
 		"cond-true": 0.20, "cond-false": 0.20, "rejected": 0.10, "error-reported": 0.10, "else-present": 0.20,
 	},
 }
@@ -1278,7 +1329,13 @@ func runExtra(c Case) kit.Verdict {
 	f := extraFilter(c)
 	kind := map[string]string{tr.PortFilter: "port-filter", tr.RegexFilter: "regex-filter", tr.HeaderFilter: "header-filter"}[f.T]
 	var out kit.Verdict
-	r, err := parse.FromJSON(c.text())
+	if registryStuck.Load() {
+		return nil // see registryStuck
+	}
+	r, err, hung := parseBounded("enum-port-regex-filters", c)
+	if hung != nil {
+		return hung
+	}
 	if c.mustReject() {
 		if err == nil {
 			where := "modifier"
@@ -1337,6 +1394,9 @@ var propExtra = &kit.Prop[Case]{
 }
 
 func TestEnumExtraFilters(t *testing.T) {
+	if registryStuck.Load() {
+		t.Skip("a configuration call of an earlier check never returned; the process-wide parse registry is stuck")
+	}
 	probe := func(id int) *tr.Node {
 		return &tr.Node{ID: id, T: tr.HeaderAppend, P: map[string]string{"name": "X-Verif-Trace", "value": fmt.Sprintf("t%d", id)}}
 	}
